@@ -644,17 +644,17 @@ Trace genClockKeep(uint64_t seed) {
 Trace genClockSync(uint64_t seed) {
   Rng rng(seed);
   Trace tr; tr.profile = "clock-sync";
-  static const uint32_t kSync[] = {5, 7, 60, 3600, 65535};
-  static const uint32_t kInit[] = {1, 2, 5, 10, 0 /* > sync */};
-  static const uint32_t kTmo[] = {0, 1, 1000, 5000, 65535};
+  static const uint32_t kSync[] = {1, 2, 3, 5, 7, 60, 61, 3600, 43200, 65535};
+  static const uint32_t kInit[] = {1, 2, 3, 5, 10, 0 /* > sync */};
+  static const uint32_t kTmo[] = {0, 1, 2, 1000, 5000, 60000, 65535};
   uint32_t syncP, initP, tmo;
   bool testable = false;
   if (rng.chance(3, 20)) { syncP = 3600; initP = 5; tmo = 1000; testable = true; }
   else {
-    syncP = kSync[rng.below(5)];
-    initP = kInit[rng.below(5)];
+    syncP = kSync[rng.below(10)];
+    initP = kInit[rng.below(6)];
     if (initP == 0) initP = syncP >= 65530 ? 65535 : syncP + 1 + (uint32_t)rng.below(5);
-    tmo = kTmo[rng.below(5)];
+    tmo = kTmo[rng.below(7)];
   }
   unsigned ra = rng.below(10);
   const char* refArr = ra < 1 ? "none" : (ra < 7 ? "distinct" : "same");
